@@ -41,6 +41,15 @@ class BiasGeluFusion(pattern.RewriteRuleClassBase):
         if not _ir_utils.has_rank(bias, 1):
             return check_result.fail("bias is not of shape 1D tensor", bias)
 
+        # BiasGelu requires the bias length to equal the last dimension of the input
+        # (Add would also broadcast a bias of length 1, or onto a last dimension of size 1).
+        if input.shape is None or input.shape.rank() == 0:
+            return check_result.fail("input shape is not known", input)
+        if not _ir_utils.same_dim(bias.shape[0], input.shape[-1]):
+            return check_result.fail(
+                "bias length does not match the last dimension of input", [bias, input]
+            )
+
         return check_result
 
     def rewrite(self, op, input, bias, **_):
